@@ -61,8 +61,13 @@ func (o ObjectAndFilterResult) Map() map[string]interface{} {
 	var filterResultValue interface{}
 	if o.Metadata.JqFilter != "" {
 		// jqFilter is set, so filterResult field should be in a map.
-		// FilterResult is a jq output and should be a string.
+		// FilterResult is a jq output: JSON text (string) or an already decoded value.
 		filterResString, ok := o.FilterResult.(string)
+		if !ok && o.FilterResult != nil {
+			// applyFilter stores the decoded jq result (a map), not its JSON text.
+			m["filterResult"] = o.FilterResult
+			return m
+		}
 		if !ok || filterResString == "" {
 			m["filterResult"] = nil
 			return m
